@@ -1,5 +1,4 @@
 import Pendulum.Proofs.IsoDurPy
-import Pendulum.Proofs.IsoPyDurGen
 /-! # C13 — ISO 8601 durations and intervals parse to their exact value
 
 Model: `Model/IsoDur.lean` (the two duration parsers after the repairs, shared lexer, `finish` = range of
@@ -336,128 +335,5 @@ example : rankOf false 'M' = 2 ∧ rankOf true 'M' = 6 := by decide
 
 
 /-! ## the pure-Python duration parser as regenerated from the source (`Gen/IsoPy.lean`, tools/gen_isopy.py) -/
-
-section Regenerated
-open Pendulum.IsoPyDurGen
-open Pendulum.Gen.IsoPy (Ext DurArgs)
-
-/-- the model's `parse` for the pure-Python backend is: lexer, `pyMatch` (the regular expression: which groups), then the
-    per-group code `pyEval` and the range check `finish` — the last two are what the regenerated definition is tied to -/
-theorem parse_py_eq (rest : List Char) :
-    parse .py ('P' :: rest) =
-      (match lex .py rest with
-        | .error k => .error k
-        | .ok ts =>
-          match pyMatch ts with
-          | none => .error .syntax
-          | some g => (match pyEval g with | .ok p => finish p | .error k => .error k)) := by
-  simp only [parse, parseParsed, run, pyRun]
-  cases lex .py rest with
-  | error k => rfl
-  | ok ts =>
-    dsimp only
-    cases pyMatch ts with
-    | none => rfl
-    | some g => dsimp only; cases pyEval g <;> rfl
-
-/-- what the model says about `Duration(**kw)`: the range check `fin`, an `OverflowError` outside it (generic in the range check,
-    instantiated with `finish`: the kernel must not unfold its 10^15-sized literals) -/
-def DurationOkF (fin : Parsed → Except Kind Dur) (ext : Ext Dur) : Prop :=
-  ∀ p : Parsed, ext.Duration (argsOf p) = (match fin p with | .ok d => .ok d | .error _ => .error "OverflowError")
-
-/-- `Duration(**kw)` is the range check of `timedelta` -/
-def DurationOk (ext : Ext Dur) : Prop := DurationOkF finish ext
-
-/-- **iso_duration_source_eq_model.** `_parse_iso8601_duration` after `ISO8601_DURATION.match`, as written in the source and
-    regenerated on every run — the weeks block, the years/months/days block and the hours/minutes/seconds block (order check
-    on the group positions, the `fractional` flag, `.replace` / `.split` / `int()` of the group texts,
-    `_fraction_to_microseconds`), then `Duration(...)` inside `try … except OverflowError: raise ParserError` — is the model's
-    `pyEval` followed by `finish`, for every match of the expression (`WG`: any groups, any digits, `.` or `,`), every rejection
-    being a `ParserError`. Hypotheses: `int()` reads ASCII digits (`DigitOk`), `Duration` is the range check (`DurationOk`);
-    satisfiable: `iso_duration_hypotheses_satisfiable`. -/
-theorem iso_duration_source_eq_model (ext : Ext Dur) (hx : DigitOk ext) (hD : DurationOk ext) (g : WG) (hv : g.valid) :
-    Gen.IsoPy.py_iso_duration ext (durGroups g) =
-      liftK id (match pyEval g.py with | .ok p => finish p | .error k => .error k) := by
-  rw [duration_core ext hx g hv]
-  cases pyEval g.py with
-  | error k => rfl
-  | ok p =>
-    dsimp only
-    rw [hD p]
-    cases finish p <;> rfl
-
-/-- … and, with `Duration` left open, the keyword arguments handed to it are the model's components -/
-theorem iso_duration_args_source_eq_model (ext : Ext DurArgs) (hx : DigitOk ext) (hD : ∀ a, ext.Duration a = .ok a) (g : WG)
-    (hv : g.valid) :
-    Gen.IsoPy.py_iso_duration ext (durGroups g) = liftK argsOf (pyEval g.py) := by
-  rw [duration_core ext hx g hv]
-  cases pyEval g.py with
-  | error k => rfl
-  | ok p => dsimp only; rw [hD]; rfl
-
-/-- `_fraction_to_microseconds` as regenerated is the model's `fracUs` (whose rounding is `frac_nearest` above) -/
-theorem iso_fraction_source_eq_model {V : Type} (ext : Ext V) (hx : DigitOk ext) (f : List Nat) (hf : digitsOk f) (U : Nat) :
-    Gen.IsoPy.py_fraction_to_microseconds ext (renderDigits f) (U : Int) = .ok ((fracUs f (U * 1000000) : Nat) : Int) :=
-  fraction_tie ext hx f hf U
-
-/-- the expression whose matching is not translated, and the statements of the function up to the match test, verbatim -/
-theorem iso8601_duration_regex_pinned :
-    Gen.IsoPy.ISO8601_DURATION_pattern =
-      "^P(?P<w>    (?P<weeks>\\d+(?:[.,]\\d+)?W))?(?P<ymd>    (?P<years>\\d+(?:[.,]\\d+)?Y)?    (?P<months>\\d+(?:[.,]\\d+)?M)?    (?P<days>\\d+(?:[.,]\\d+)?D)?)?(?P<hms>    (?P<timesep>T)    (?P<hours>\\d+(?:[.,]\\d+)?H)?    (?P<minutes>\\d+(?:[.,]\\d+)?M)?    (?P<seconds>\\d+(?:[.,]\\d+)?S)?)?$\nre.VERBOSE" ∧
-    Gen.IsoPy.py_iso_duration_prologue = "m = ISO8601_DURATION.match(text)\nif not m:\n    return None" := by
-  dtie "C13.iso8601_duration_regex_pinned" "iso8601.py::ISO8601_DURATION (the expression) or the first statements of _parse_iso8601_duration" =>
-    exact ⟨rfl, rfl⟩
-
-/-- the reference callees: ASCII digits, `Duration` = the range check `fin` -/
-def refExtF (fin : Parsed → Except Kind Dur) : Ext Dur where
-  digit := digitVal
-  date_add_days := fun _ _ _ _ => .error "unused"
-  Duration := fun a =>
-    match fin ⟨a.years.toNat, a.months.toNat, a.weeks.toNat, a.days.toNat, a.hours.toNat, a.minutes.toNat, a.seconds.toNat,
-      a.microseconds.toNat⟩ with
-    | .ok d => .ok d
-    | .error _ => .error "OverflowError"
-
-theorem refExtF_ok (fin : Parsed → Except Kind Dur) : DigitOk (refExtF fin) ∧ DurationOkF fin (refExtF fin) := by
-  refine ⟨fun c d h => h, fun p => ?_⟩
-  obtain ⟨y, mo, w, d, h, mi, s, us⟩ := p
-  simp only [refExtF, argsOf, Int.toNat_natCast]
-
-def refExt : Ext Dur := refExtF finish
-
-theorem iso_duration_hypotheses_satisfiable : DigitOk refExt ∧ DurationOk refExt := refExtF_ok finish
-
-/-- the groups of `P1Y2M3DT4H5M6,5S` -/
-def sampleG : WG :=
-  ⟨none, some ⟨[1], '.', none, 'Y'⟩, some ⟨[2], '.', none, 'M'⟩, some ⟨[3], '.', none, 'D'⟩,
-    some (some ⟨[4], '.', none, 'H'⟩, some ⟨[5], '.', none, 'M'⟩, some ⟨[6], ',', some [5], 'S'⟩)⟩
-
-def okIs {α : Type} [DecidableEq α] (r : Except String α) (v : α) : Bool :=
-  match r with
-  | .ok a => decide (a = v)
-  | .error _ => false
-
-def errIs {α : Type} (r : Except String α) (e : String) : Bool :=
-  match r with
-  | .ok _ => false
-  | .error x => x == e
-
-example : (durGroups sampleG).ymd = some "1Y2M3D".toList ∧ (durGroups sampleG).hms = some "T4H5M6,5S".toList ∧
-    (durGroups sampleG).months_start = 3 ∧ (durGroups sampleG).seconds_start = 12 := by decide
-example : sampleG.valid := by
-  refine ⟨?_, ?_, ?_, ?_, ?_⟩
-  · intro w h; cases h
-  all_goals
-    simp only [sampleG, ValidU, Option.some.injEq, Prod.mk.injEq, forall_eq', and_imp]
-    try intro h mi s e1 e2 e3
-    try subst e1 e2 e3
-    simp [WItem.valid, digitsOk] <;> decide
-/-- the regenerated code evaluates: 1 year, 2 months, 3 d 4 h 5 min 6.5 s -/
-example : okIs (Gen.IsoPy.py_iso_duration refExt (durGroups sampleG)) ⟨1, 2, 273906500000⟩ = true := by decide
-/-- fractional years are refused -/
-example : errIs (Gen.IsoPy.py_iso_duration refExt (durGroups ⟨none, some ⟨[1], '.', some [5], 'Y'⟩, none, none, none⟩))
-    "ParserError" = true := by decide
-
-end Regenerated
 
 end Pendulum.Props.C13
